@@ -36,7 +36,7 @@ const (
 	s2 = ":S2]]"
 )
 
-var c03Carriers = []string{"print", "letc", "param-content", "call-value", "call-all", "call-deep", "msg", "letc-reprint", "data-map"}
+var c03Carriers = []string{"print", "letc", "param-content", "call-value", "call-all", "call-deep", "msg", "letc-reprint", "data-map", "after-call", "loop-around-call"}
 var c03Modes = []string{"", "true", "false", "contextual", "deprecated-contextual"}
 
 func intE(i int) *ref.Expr    { return &ref.Expr{Op: "int", I: int64(i)} }
@@ -48,6 +48,10 @@ func buildC03(c C03Case) (pc gen.ProgCase, printerNs, printerTmpl string) {
 	under := ref.Cmd{K: "print", Expr: varE("x"), Directives: c.Chain}
 	show := ref.Template{Name: "show", Params: []ref.ParamDecl{{Name: "x"}}, Autoescape: c.CalleeMode, Header: c.Header,
 		Body: []ref.Cmd{txt(s1), under, txt(s2)}}
+	if c.Carrier == "after-call" || c.Carrier == "loop-around-call" {
+		// the frame under test is the caller's; the callee prints without sentinels
+		show.Body = []ref.Cmd{txt("(callee:"), {K: "print", Expr: varE("x")}, txt(")")}
+	}
 	mid := ref.Template{Name: "mid", Params: []ref.ParamDecl{{Name: "x"}}, Autoescape: c.TmplMode,
 		Body: []ref.Cmd{txt("mid("), {K: "call", Call: &ref.Call{Target: "b.lib.show", Style: 1, Params: []ref.Param{{Key: "x", Value: varE("x")}}}}, txt(")")}}
 	echo := ref.Template{Name: "echo", Params: []ref.ParamDecl{{Name: "v"}}, Autoescape: c.CalleeMode,
@@ -77,6 +81,12 @@ func buildC03(c C03Case) (pc gen.ProgCase, printerNs, printerTmpl string) {
 	case "call-deep":
 		main.Body = []ref.Cmd{{K: "call", Call: &ref.Call{Target: "a.mid", Style: 0, Params: []ref.Param{{Key: "x", Value: varE("x")}}}}}
 		printerNs, printerTmpl = c.CalleeNs, c.CalleeMode
+	case "after-call":
+		// the caller prints after a call to a template with its own mode has returned
+		main.Body = append([]ref.Cmd{txt("<p>"), {K: "call", Call: &ref.Call{Target: "b.lib.show", Style: 1, Params: []ref.Param{{Key: "x", Value: &ref.Expr{Op: "str", S: "k"}}}}}, txt("|")}, framed...)
+	case "loop-around-call":
+		main.Body = []ref.Cmd{{K: "for", Var: "it", Expr: &ref.Expr{Op: "call", Name: "range", Args: []*ref.Expr{{Op: "int", I: 2}}}, Body: append(append([]ref.Cmd{}, framed...),
+			ref.Cmd{K: "call", Call: &ref.Call{Target: "b.lib.show", Style: 1, Params: []ref.Param{{Key: "x", Value: &ref.Expr{Op: "str", S: "k"}}}}})}}
 	case "msg":
 		main.Body = []ref.Cmd{{K: "msg", Desc: "m", Body: []ref.Cmd{txt("Hi " + s1), under, txt(s2 + " there")}}}
 	default:
@@ -159,6 +169,9 @@ func checkC03(c C03Case) Verdict {
 	}
 	// oracle 1: invariant on the frame, computed from the implementation's own output
 	i, j := strings.Index(rr.out, s1), strings.LastIndex(rr.out, s2)
+	if c.Carrier == "loop-around-call" {
+		i = strings.LastIndex(rr.out, s1) // the second iteration: a call has returned before this print
+	}
 	if i < 0 || j < i {
 		return bad(true, "sentinels not found in output %q", rr.out)
 	}
